@@ -73,6 +73,22 @@ type Target struct {
 	Transport *http.Transport
 }
 
+// escapedPathAfter returns what follows the first n decoded
+// bytes of the percent-encoded path p.
+func escapedPathAfter(p string, n int) string {
+	i := 0
+	for ; n > 0 && i < len(p); n-- {
+		if p[i] == '%' {
+			i += 2
+		}
+		i++
+	}
+	if i > len(p) {
+		return ""
+	}
+	return p[i:]
+}
+
 func (t *Target) BuildRedirectURL(requestURL *url.URL) {
 	t.RedirectURL = &url.URL{
 		Scheme:   t.URL.Scheme,
@@ -94,27 +110,19 @@ func (t *Target) BuildRedirectURL(requestURL *url.URL) {
 	}
 	// remove strip path, insert passed request path, set query
 	if strings.Contains(t.RedirectURL.Path, "$path") {
-		// set replacement paths
+		// set replacement paths: the decoded path and the path
+		// in the encoding the client has used
 		replacePath := requestURL.Path
-		var replaceRawPath string
-		if requestURL.RawPath == "" {
-			replaceRawPath = requestURL.Path
-		} else {
-			replaceRawPath = requestURL.RawPath
-		}
+		replaceRawPath := requestURL.EscapedPath()
 		// strip path before replacement
-		if t.StripPath != "" {
-			if strings.HasPrefix(replacePath, t.StripPath) {
-				replacePath = replacePath[len(t.StripPath):]
-			}
-			if strings.HasPrefix(replaceRawPath, t.StripPath) {
-				replaceRawPath = replaceRawPath[len(t.StripPath):]
-			}
+		if t.StripPath != "" && strings.HasPrefix(replacePath, t.StripPath) {
+			replacePath = replacePath[len(t.StripPath):]
+			replaceRawPath = escapedPathAfter(replaceRawPath, len(t.StripPath))
 		}
 		// add prepend path
 		if t.PrependPath != "" {
 			replacePath = t.PrependPath + replacePath
-			replaceRawPath = t.PrependPath + replaceRawPath
+			replaceRawPath = (&url.URL{Path: t.PrependPath}).EscapedPath() + replaceRawPath
 		}
 		// do path replacement
 		t.RedirectURL.Path = strings.Replace(t.RedirectURL.Path, "$path", replacePath, 1)
